@@ -14,7 +14,8 @@ CONSTANTS
   ImportToks <- MCImportsAll
   CmtToks <- MCCmt
   NeverPruned <- MCNever
-  Cfgs <- MCCfgsAll
+  RootToks <- MCRootAll
+  Cfgs <- MCCfgsStep
   ImpPairs <- MCPairs2
   InitSchemas <- MCInitEmpty
   MaxHist = 1
